@@ -12,7 +12,7 @@
 EXTENDS JMES, Json, Toks
 CONSTANTS Emit, Prop, MaxK
 
-Letters == [i \in 1..40 |-> 97 + ((i - 1) % 26)]
+Letters == [i \in 1..80 |-> 97 + ((i - 1) % 26)]
 Wide == <<233, 8364, 128512>>
 Subject(k, w, m) == SubSeq(Letters, 1, k) \o <<Wide[w]>> \o SubSeq(Letters, k + 1, k + m)
 
